@@ -511,3 +511,39 @@ Lemma push_header_panic_iff n : (exists w, push_header n = Panic w) <-> 0x100000
 Proof. unfold push_header, OP_PUSHDATA1. destruct (N.ltb_spec n 76), (N.ltb_spec n 256), (N.ltb_spec n 65536), (N.ltb_spec n 4294967296);
   split; intros X; try lia; try (destruct X as [w X]; discriminate X); eexists; reflexivity. Qed.
 
+
+(* ------------------------------------------------------------------ which builder programs panic *)
+Lemma push_slice_panic_iff b d : (exists w, push_slice b d = Panic w) <-> 0x100000000 <= lenN d.
+Proof. unfold push_slice. rewrite <- push_header_panic_iff. destruct (push_header (lenN d)); cbn [obind]; split; intros [w H]; try discriminate H; eauto. Qed.
+Lemma scriptint_short p n e : in_i64 n = true -> build_scriptint p n = Val e -> lenN e < 0x100000000.
+Proof. intros R E. destruct (Z.eq_dec n 0) as [->|NZ]. { inversion E; subst. reflexivity. }
+  assert (PM : p = Release \/ n <> i64_min).
+  { destruct p; [|left; reflexivity]. right. intros ->. rewrite build_scriptint_min_debug in E. discriminate. }
+  destruct (build_scriptint_spec p n R NZ PM) as (e' & E' & _ & _ & LEN). rewrite E in E'. inversion E'; subst e'.
+  assert (length e <= 9)%nat. { apply (LEN 8%nat). change (128 * 256 ^ N.of_nat 8) with 2361183241434822606848. i64c. lia. }
+  unfold lenN. lia. Qed.
+Lemma push_scriptint_panic_iff p b n : in_i64 n = true -> ((exists w, push_scriptint p b n = Panic w) <-> p = Debug /\ n = i64_min).
+Proof. intros R. rewrite <- (build_scriptint_panic_iff p n R). unfold push_scriptint. destruct (build_scriptint p n) as [e|w] eqn:E; cbn [obind].
+  - split; [|intros [w H]; discriminate H]. intros H. apply push_slice_panic_iff in H. pose proof (scriptint_short p n e R E). lia.
+  - split; intros _; eauto. Qed.
+Lemma step_panic_iff p b op : op_ok op = true -> ((exists w, step p b op = Panic w) <-> op_panics p op).
+Proof. intros OK. destruct op as [n|n|d|c|]; cbn [step op_panics op_ok] in *.
+  - unfold push_int. destruct ((n =? -1) || (1 <=? n) && (n <=? 16))%Z eqn:S; [|destruct (n =? 0)%Z eqn:Z].
+    + split; [intros [w H]; discriminate H|]. intros [_ ->]. discriminate S.
+    + split; [intros [w H]; discriminate H|]. intros [_ ->]. discriminate Z.
+    + now apply push_scriptint_panic_iff.
+  - now apply push_scriptint_panic_iff.
+  - apply push_slice_panic_iff.
+  - split; [intros [w H]; discriminate H|contradiction].
+  - split; [intros [w H]; discriminate H|contradiction]. Qed.
+Lemma run_panic_iff p : forall ops b, forallb op_ok ops = true ->
+  ((exists w, run p ops b = Panic w) <-> exists op, In op ops /\ op_panics p op).
+Proof. induction ops as [|op ops IH]; intros b OK; cbn [run].
+  - split; [intros [w H]; discriminate H|intros (op & [] & _)].
+  - cbn [forallb] in OK. apply andb_true_iff in OK as [O1 O2]. destruct (step p b op) as [b1|w] eqn:S; cbn [obind].
+    + rewrite (IH b1 O2). split; intros (op' & I & P).
+      * exists op'. split; [right; exact I|exact P].
+      * destruct I as [<-|I]; [|exists op'; auto]. exfalso. apply (step_panic_iff p b op O1) in P as [w P]. congruence.
+    + split; [intros _|intros _; eauto]. exists op. split; [left; reflexivity|]. apply (step_panic_iff p b op O1). eauto. Qed.
+Theorem build_panic_iff p ops : forallb op_ok ops = true -> ((exists w, build p ops = Panic w) <-> exists op, In op ops /\ op_panics p op).
+Proof. intros OK. rewrite <- (run_panic_iff p ops b_new OK). unfold build. destruct (run p ops b_new); cbn [obind]; split; intros [w H]; try discriminate H; eauto. Qed.
